@@ -89,7 +89,7 @@ func constrain(set []ivl, cond string, truth bool, v string) ([]ivl, bool) {
 
 // acceptedSet: the set of runes for which a pure rune predicate returns true (interval evaluation of its paths).
 func acceptedSet(p *Prog, fn *ssa.Function) ([]ivl, bool, string) {
-	m := NewInterpModel(p, fn.Name())
+	m := NewInterpModel(p, fnName(fn))
 	m.EmitTests = true
 	m.KeepAsEvent = func(c *ssa.Function) bool { return false }
 	v := fn.Params[0].Name()
